@@ -1080,6 +1080,10 @@ class C07(E2Prop):
         # handshake half: reuse the C17 generator (heads x transport outcomes) with unique ids
         hs = C17().generate(tier, rng)
         for k, c in enumerate(hs):
+            if c.startswith('RB '):
+                # ReadBuffer::advance past the end is the documented panic of bytes::Buf::advance on API misuse (the handshake
+                # machine only advances by what the parser consumed): C17b states it explicitly, it is not a C07 matter
+                continue
             f = c.split(' '); f[1] = 'hs%d' % k; out.append(' '.join(f))
         return out
     impl_only_kinds = ('TP',)
